@@ -63,6 +63,8 @@ type Ctx struct {
 	consts map[string]*Term
 	// HintFns allows shadow evaluation of hints by name.
 	NoSites bool
+	all     []*Term
+	refined bool
 	Info    map[string]any
 }
 
@@ -74,6 +76,7 @@ func (e *Ctx) newTerm(t *Term) *Term {
 	e.nextID++
 	t.ID = e.nextID
 	e.NodeCnt++
+	e.all = append(e.all, t)
 	if len(e.tainted) != 0 {
 		for _, a := range t.Args {
 			if e.tainted[a] {
@@ -609,6 +612,70 @@ func (e *Ctx) RunDeferred() error {
 		}
 	}
 	return nil
+}
+
+// Refine computes the refined intervals (RLo/RHi/RWrap): atoms are narrowed by the CRange / CLeq
+// facts asserted directly on them, all other terms are recomputed bottom-up.
+func (e *Ctx) Refine() {
+	hi := map[*Term]*big.Int{}
+	for _, c := range e.Cons {
+		if c.A == nil || c.A.Op != OpAtom {
+			continue
+		}
+		var b *big.Int
+		switch c.Kind {
+		case CRange:
+			b = new(big.Int).Lsh(one, uint(c.N))
+			b.Sub(b, one)
+		case CLeq:
+			b = c.B.C
+		case CBool:
+			b = one
+		default:
+			continue
+		}
+		if old, ok := hi[c.A]; !ok || b.Cmp(old) < 0 {
+			hi[c.A] = b
+		}
+	}
+	for _, t := range e.all {
+		switch t.Op {
+		case OpConst:
+			t.RLo, t.RHi = t.C, t.C
+		case OpAtom:
+			t.RLo, t.RHi = t.Lo, t.Hi
+			if h, ok := hi[t]; ok && h.Cmp(t.Hi) < 0 {
+				t.RHi = h
+			}
+		case OpAdd, OpMul, OpSub:
+			a, b := t.Args[0], t.Args[1]
+			var lo, h *big.Int
+			switch t.Op {
+			case OpAdd:
+				lo, h = new(big.Int).Add(a.RLo, b.RLo), new(big.Int).Add(a.RHi, b.RHi)
+			case OpMul:
+				lo, h = new(big.Int).Mul(a.RLo, b.RLo), new(big.Int).Mul(a.RHi, b.RHi)
+			case OpSub:
+				lo, h = new(big.Int).Sub(a.RLo, b.RHi), new(big.Int).Sub(a.RHi, b.RLo)
+			}
+			if !t.Wrap {
+				// never wrapped even without the facts; keep the (possibly wider than r) raw flag
+				t.RWrap = false
+				t.RLo, t.RHi = bmax(lo, t.Lo), bmin(h, t.Hi)
+			} else if inR(lo, h) {
+				t.RWrap = false
+				t.RLo, t.RHi = lo, h
+			} else {
+				t.RWrap = true
+				t.RLo, t.RHi = zero, Rm1
+			}
+		case OpIte:
+			t.RLo, t.RHi = bmin(t.Args[1].RLo, t.Args[2].RLo), bmax(t.Args[1].RHi, t.Args[2].RHi)
+		default:
+			t.RLo, t.RHi = t.Lo, t.Hi
+		}
+	}
+	e.refined = true
 }
 
 // RunDeferredN runs only the first n registered callbacks.
